@@ -50,6 +50,15 @@ CHECKS["C04"] = dict(
     note="Trusted: pysym interpreter/models, z3. D1/D2 are the listed concrete documents.",
     ref="§4 C04")
 
+CHECKS["C09"] = dict(
+    text="Every entry key, string key and field key in documents of 2-3 (thorough 4) blocks is a symbolic character over {a,b}, so all collision patterns are solver-chosen; the real parse_string is executed symbolically together with an oracle transcribed from the statement, and z3 decides per final world that live blocks, duplicate-key wrappers (key, previous block, complete duplicate) and duplicate-field wrappers (all occurrences in order, exact duplicate set, not registered) are exactly as stated.",
+    note="Trusted: pysym interpreter/models, z3. Keys are one character; values fixed.",
+    ref="§4 C09")
+CHECKS["C11"] = dict(
+    text="@string keys and referenced identifiers are symbolic 1-2 character names over {a,A,b}; value shape and definition placement are enumerated templates; parse_string (default stack) is executed symbolically and z3 decides per final world that exactly the bare names equal to a defined key take the first definition's parsed value, that the resolved keys are recorded, that every other field keeps its text and that @string blocks equal those of a plain split + enclosure removal.",
+    note="Trusted: pysym interpreter/models, z3. Names up to 2 characters; three fixed @string values.",
+    ref="§4 C11")
+
 NOT_YET = "check not built yet in this round (engine exists; harness pending)"
 
 def main():
